@@ -9,7 +9,7 @@ def claim(pid, text, note, technique, ref):
 TB = "Trusted: go/packages+go/types loading of /repo with default build tags (+verif), go/ssa construction (x/tools v0.29.0), and the rule implementations in /verif/checker. Decides only the structural clauses named; the value-level statement of the property is not decided."
 
 claim("C09",
- "Static table/guard analysis: decides, over every operator the lexer can emit (resolved from the rule table and its factory closures through SSA), the precedence relations that are necessary for 'expression == its parenthesised form' (atoms and prefix functions outrank infix and implicit post-traverse operators; infix order equals the reference precedence order; shunting-yard pops on strictly greater), layout facts computed on the rule regexes (whitespace class, comment rule, non-nullable rules, layout/delimiter characters end a bare path token), and the rejection guards of ConvertToPostfix/createExpressionTree by interval reasoning over len(stack); implicit operators inserted by token post-processing outrank every written infix operator; a constant rewrite of an expression read from a file keeps its line feeds. A necessary-condition check: breaking any obligation changes a parse for some expression.",
+ "Static table/guard analysis: decides, over every operator the lexer can emit (resolved from the rule table and its factory closures through SSA), the precedence relations that are necessary for 'expression == its parenthesised form' (atoms and prefix functions outrank infix and implicit post-traverse operators; infix order equals the reference precedence order; shunting-yard pops on strictly greater), layout facts computed on the rule regexes (whitespace class, comment rule, non-nullable rules, layout/delimiter characters end a bare path token), and the rejection guards of ConvertToPostfix/createExpressionTree by interval reasoning over len(stack); implicit operators inserted by token post-processing outrank every written infix operator; a constant rewrite of an expression read from a file keeps its line feeds; no operator rule ends in an optional class of letters that begin other tokens (four known findings on the pinned tree: the flag suffixes of `=`, `|=`, `*`, `*=` swallow the first letter of a following keyword). A necessary-condition check: breaking any obligation changes a parse for some expression.",
  TB + " T4's reference order is the documented precedence table kept as a relation.",
  "static analysis: operator/lexer table extraction (AST+SSA abstract evaluation of rule factories), regex language tests, dominator-based interval reasoning over len()",
  "DESIGN.md §3 C09")
@@ -21,7 +21,7 @@ claim("C15",
  "DESIGN.md §3 C15")
 
 claim("C17",
- "Static character-class and taint analysis: the set of runes @sh leaves unquoted is computed from the unsafeChars regex constant and from the shape of shouldQuote (every returned value is `true` or the regex verdict) and must be a subset of the POSIX-inert set; the -o=shell name mapper and value-bypass predicates are evaluated exactly by a rune-set algebra over their syntax (comparisons of the rune or of a term built by narrowing conversions / bit operations / arithmetic with constants, whose preimage over the finite rune domain is computed exactly; &&, ||, !, if-return, switch, single definitions) and must stay within [A-Za-z0-9_]; the quoted form of quoteValue must be '..' with a valid quote idiom; scalar text reaches a writer only through the sanitisers (value-flow over SSA); the format operand of every Printf-family call is constant (data is never a format string); no string byte is written as a rune. Necessary conditions: one unsafe rune in a safe class is an injection for the string consisting of it.",
+ "Static character-class and taint analysis: the set of runes @sh leaves unquoted is computed from the unsafeChars regex constant and from the shape of shouldQuote (every returned value is `true` or the regex verdict) and must be a subset of the POSIX-inert set; the -o=shell name mapper and value-bypass predicates are evaluated exactly by a rune-set algebra over their syntax (comparisons of the rune or of a term built by narrowing conversions / bit operations / arithmetic with constants, whose preimage over the finite rune domain is computed exactly; &&, ||, !, if-return, switch, single definitions) and must stay within [A-Za-z0-9_]; the quoted form of quoteValue must be '..' with a valid quote idiom; scalar text reaches a writer only through the sanitisers (value-flow over SSA); the format operand of every Printf-family call is constant (data is never a format string); no string byte is written as a rune; every name component of -o=shell passes through appendPath. Necessary conditions: one unsafe rune in a safe class is an injection for the string consisting of it.",
  TB + " POSIX shell quoting rules (inert set, the two quote idioms) are the reference.",
  "static analysis: regex class computed from the source constant, exact rune-set abstract interpretation of predicate syntax, SSA return-leaf and taint-flow rules",
  "DESIGN.md §3 C17")
@@ -39,7 +39,7 @@ claim("C12",
  "DESIGN.md §3 C12")
 
 claim("C08",
- "Inter-procedural mutation-footprint analysis (engine E1): for each of the ~92 non-update operator handlers discovered from the operationType table, context-sensitive summaries (parameter/free-variable/global roots, fresh objects with separate container / Content / Key / back-edge contents, callbacks, interface dispatch over module implementations, locally built dynamic evaluations) show that no store reaches a node of the handler's context unless dominated by a !DontAutoCreate test; Context-deriving methods keep the read-only flag, WritableClone is the single escalation point and a writable context never meets a user sub-expression; the 42 operand evaluations that are read-only on the pinned tree (incl. the `as` binder and `select`) must stay read-only; no node takes another node's children as they are (a scratch copy sharing children with the document is the document under a second name). Necessary conditions: an unguarded store into an input node is visible in `(E) as $x | .`.",
+ "Inter-procedural mutation-footprint analysis (engine E1): for each of the ~92 non-update operator handlers discovered from the operationType table, context-sensitive summaries (parameter/free-variable/global roots, fresh objects with separate container / Content / Key / back-edge contents, callbacks, interface dispatch over module implementations, locally built dynamic evaluations) show that no store reaches a node of the handler's context unless dominated by a !DontAutoCreate test; Context-deriving methods keep the read-only flag, WritableClone is the single escalation point and a writable context never meets a user sub-expression; the 42 operand evaluations that are read-only on the pinned tree (incl. the `as` binder and `select`) must stay read-only; no node takes another node's children as they are (a scratch copy sharing children with the document is the document under a second name); `|` returns its own context around the right side's results (no writable context escapes). Necessary conditions: an unguarded store into an input node is visible in `(E) as $x | .`.",
  TB + " E1 is flow-insensitive per function and collapses objects per allocation site; foreign functions are assumed not to write CandidateNode fields. The read-only reference table (ref_readonly.go) is the set of sites confirmed on the pinned tree.",
  "static analysis: summary-based provenance/mutation-footprint analysis over go/ssa with dominator guards; evaluation-site census against a confirmed reference",
  "DESIGN.md §2.2, §3 C08")
@@ -51,7 +51,7 @@ claim("C10",
  "DESIGN.md §3 C10")
 
 claim("C18",
- "Static shared-state analysis: (engine E1 with global roots) from every evaluation entry point — expression parsing, all operator handlers, codec / printer / evaluator methods and constructors — no store to a package-level variable or through one is reachable, except initialisation under sync.Once; dynamic calls through the lexer's rule table are resolved with the VTA call graph. No Decoder/Encoder instance is created in a package-level initialiser or captured by a lexer rule; the parsed expression tree carries no state between evaluations (C10-S3); clock / random / environment are read only by the excluded operators and cmd start-up; no map iteration feeds an ordered container or writer; decoder state is reset by Init; every lexer action allocates its token's Operation objects itself (no Operation shared between parses); encoder level counters are balanced per document. With no goroutines and no other sync primitive in the module, 'no evaluation-time write to shared module memory' is also sufficient for race freedom on module memory.",
+ "Static shared-state analysis: (engine E1 with global roots) from every evaluation entry point — expression parsing, all operator handlers, codec / printer / evaluator methods and constructors — no store to a package-level variable or through one (field stores, container updates, and — for methods of the process-wide singletons built under sync.Once — writes through the receiver) is reachable, except initialisation under sync.Once; dynamic calls through the lexer's rule table are resolved with the VTA call graph. No Decoder/Encoder instance is created in a package-level initialiser or captured by a lexer rule; the parsed expression tree carries no state between evaluations (C10-S3); clock / random / environment are read only by the excluded operators and cmd start-up; no map iteration feeds an ordered container or writer; decoder state is reset by Init; every lexer action allocates its token's Operation objects itself (no Operation shared between parses); encoder level counters are balanced per document. With no goroutines and no other sync primitive in the module, 'no evaluation-time write to shared module memory' is also sufficient for race freedom on module memory.",
  TB + " Third-party packages are assumed goroutine-safe as documented.",
  "static analysis: summary-based mutation-footprint analysis with global roots (E1), VTA call graph for table-driven dispatch, initialiser census, who-may-call for nondeterminism sources",
  "DESIGN.md §3 C18")
@@ -67,7 +67,7 @@ claim("C03",
  "static analysis: E1 footprint comparison against the expected set, static reachability (who-may-call the glob matcher), SSA comparison-shape rule",
  "DESIGN.md §3 C03")
 claim("C04",
- "Static analysis of deep merge: E1 shows that from the MULTIPLY handler through the crossFunction callback, mergeObjects and applyAssignment (locally built ASSIGN / ASSIGN_ATTRIBUTES / ADD_ASSIGN expressions evaluated on a fresh copy of the left operand) no store reaches a node of the operands or the context; the writable context created for the merge never meets a user sub-expression; UpdateFrom deep-copies (result shares no node with the right operand); a reaching-definitions check shows the merge preferences always carry DontFollowAlias; the merge callback returns only objects allocated during the call; a function that receives a preferences struct hands its callees that struct (or a copy with overrides), never a fresh literal (23 sites incl. the recursive builder of the deep-merge assignments); the attribute update is not confined to !OnlyWriteNull; a kind change resets the children. Necessary conditions of operand immutability.",
+ "Static analysis of deep merge: E1 shows that from the MULTIPLY handler through the crossFunction callback, mergeObjects and applyAssignment (locally built ASSIGN / ASSIGN_ATTRIBUTES / ADD_ASSIGN expressions evaluated on a fresh copy of the left operand) no store reaches a node of the operands or the context; the writable context created for the merge never meets a user sub-expression; UpdateFrom deep-copies (result shares no node with the right operand); a reaching-definitions check shows the merge preferences always carry DontFollowAlias; the merge callback returns only objects allocated during the call; a function that receives a preferences struct hands its callees that struct (or a copy with overrides), never a fresh literal (23 sites incl. the recursive builder of the deep-merge assignments); the attribute update is not confined to !OnlyWriteNull; a kind change resets the children; mergeObjects skips an element of the right operand only for the !!merge tag. Necessary conditions of operand immutability.",
  TB,
  "static analysis: summary-based mutation-footprint analysis (E1) incl. locally built dynamic evaluations, writable-context taint, CFG reaching-definitions on a preference field, SSA argument-provenance rule for preference forwarding",
  "DESIGN.md §3 C04")
@@ -83,17 +83,17 @@ claim("C16",
  "DESIGN.md §3 C16")
 
 claim("C05",
- "Deliberately narrow static check of the YAML round trip: the yaml.Node attribute set read while decoding equals the set written while encoding (and likewise for CandidateNode attributes), computed from field accesses in the four conversion functions; the two style maps are mutually inverse on the named styles with numerically equal constants and an identity fall-through; Copy() carries every CandidateNode field; the document-separator marker is one literal; decoder and encoder recognise a leading comment line with the same pattern; every yaml.Node returned by MarshalYAML passed through copyToYamlNode on every path. Necessary conditions: an attribute dropped in either direction is lost for every document carrying it. Everything that depends on yaml.v3's emitter and on leading-content pre-processing is NOT decided.",
+ "Deliberately narrow static check of the YAML round trip: the yaml.Node attribute set read while decoding equals the set written while encoding (and likewise for CandidateNode attributes), computed from field accesses in the four conversion functions; the two style maps are mutually inverse on the named styles with numerically equal constants and an identity fall-through; Copy() carries every CandidateNode field; the document-separator marker is one literal; decoder and encoder recognise a leading comment line with the same pattern; every yaml.Node returned by MarshalYAML passed through copyToYamlNode on every path; MarshalYAML has an arm for every node kind. Necessary conditions: an attribute dropped in either direction is lost for every document carrying it. Everything that depends on yaml.v3's emitter and on leading-content pre-processing is NOT decided.",
  TB,
  "static analysis: field read/write set comparison over SSA, constant-table bijection check on the AST, struct-literal coverage, literal agreement",
  "DESIGN.md §3 C05")
 claim("C06",
- "Static check of the YAML<->JSON conversion paths: every json encoder reaches Encode only after SetEscapeHTML(false) (CFG must-pass-through); JSON scalars are decoded with UseNumber and no unsigned->signed conversion is applied to parsed integers; only the printer invokes Encoder.Encode, after testing CanHandleAliases and exploding on the negative branch; no Go map is a decode target or ranged over; MarshalJSON returns the scalar conversion error; the latest anchor definition wins and merged values are exploded on every path; MarshalJSON encodes o.Content only where it is known non-empty (a nil slice prints as null). Necessary conditions of value-exactness; string escaping and float formatting are delegated to goccy/go-json and not decided.",
+ "Static check of the YAML<->JSON conversion paths: every json encoder reaches Encode only after SetEscapeHTML(false) (CFG must-pass-through); JSON scalars are decoded with UseNumber and no unsigned->signed conversion is applied to parsed integers; only the printer invokes Encoder.Encode, after testing CanHandleAliases and exploding on the negative branch; no Go map is a decode target or ranged over; MarshalJSON returns the scalar conversion error; the latest anchor definition wins and merged values are exploded on every path; MarshalJSON encodes o.Content only where it is known non-empty (a nil slice prints as null) and has an arm for every node kind; the !!int arm of GetValueRep never goes through ParseFloat. Necessary conditions of value-exactness; string escaping and float formatting are delegated to goccy/go-json and not decided.",
  TB,
  "static analysis: CFG must-pass-through, decode-target type census, who-may-call, dominator-guard recognition",
  "DESIGN.md §3 C06")
 claim("C13",
- "Narrow static check over the three read routes (traverse, explode, JSON encode): every site that classifies a map entry as a merge key uses the same predicate (tag !!merge); non-alias-capable encoders get exploded input; an anchor definition unconditionally replaces the previous one of that name; overrideEntry explodes the value on every successful path; explodeNode's recursion into children is not conditional on the child; a merged mapping is read through doTraverseMap (nested merge keys followed). Necessary conditions of route agreement; which source wins (explicit vs merged, list order) is a value-level fact and NOT decided.",
+ "Narrow static check over the three read routes (traverse, explode, JSON encode): every site that classifies a map entry as a merge key uses the same predicate (tag !!merge); non-alias-capable encoders get exploded input; an anchor definition unconditionally replaces the previous one of that name; overrideEntry explodes the value on every successful path; explodeNode's recursion into children is not conditional on the child; a merged mapping is read through doTraverseMap (nested merge keys followed); the JSON route has an arm for alias nodes. Necessary conditions of route agreement; which source wins (explicit vs merged, list order) is a value-level fact and NOT decided.",
  TB,
  "static analysis: sibling-predicate agreement over SSA comparisons, control-dependence of a map update, CFG must-pass-through",
  "DESIGN.md §3 C13")
@@ -104,13 +104,13 @@ claim("C14",
  "DESIGN.md §3 C14")
 
 claim("C11",
- "Static census of panic-capable constructs over the whole module, each an obligation decided on every run: explicit panic statements and panicking third-party APIs (only in a reasoned table / with constant arguments); unchecked Preferences type assertions checked against every construction site of the operation type (lexer rule table resolved through its factory closures + Operation literals in code); list-element typing; handler operand dereferences vs NumArgs; Front()/Back()/Alias dereferences under a nil or length test; constant and len-k index/slice bounds proved by dominator-based interval reasoning over len() or covered by a residual table that names the invariant; all 222 variable index/slice bounds proved (loop shapes, dominating and edge tests, make lengths, equal-length tests, caller guarantees, key-finder contracts, the key/value pair idiom) or tabled per bound (31) — this found and fixed three crashes; csv readers keep rectangular records; a pointer result is dereferenced only where its error is known nil; level counters are balanced on every non-error exit; guarded division / Repeat / make; length snapshots of a node's Content are not used after a possible resize; the lexeme-slicing helpers are verified against the regex of every lexer rule that calls them. The 'never hangs' half of the property, general nil dereferences, third-party parser panics and stack exhaustion are NOT decided.",
+ "Static census of panic-capable constructs over the whole module, each an obligation decided on every run: explicit panic statements and panicking third-party APIs (only in a reasoned table / with constant arguments); unchecked Preferences type assertions checked against every construction site of the operation type (lexer rule table resolved through its factory closures + Operation literals in code); list-element typing; handler operand dereferences vs NumArgs; Front()/Back()/Alias dereferences under a nil or length test; constant and len-k index/slice bounds proved by dominator-based interval reasoning over len() or covered by a residual table that names the invariant; all 222 variable index/slice bounds proved (loop shapes, dominating and edge tests, make lengths, equal-length tests, caller guarantees, key-finder contracts, the key/value pair idiom) or tabled per bound (31) — this found and fixed three crashes; csv readers keep rectangular records; a pointer result is dereferenced only where its error is known nil; level counters are balanced on every non-error exit; calculations registered with calcWhenEmpty use their operands only where a path-sensitive nil analysis knows them non-nil; guarded division / Repeat / make; length snapshots of a node's Content are not used after a possible resize; the lexeme-slicing helpers are verified against the regex of every lexer rule that calls them. The 'never hangs' half of the property, general nil dereferences, third-party parser panics and stack exhaustion are NOT decided.",
  TB + " The residual tables in rules_c11.go (41 constant-index sites, 31 variable-index sites, 2 list-end sites, 4 arithmetic sites, 1 accepted panic) were triaged by reading each site; every row carries its invariant.",
  "static analysis: panic-site census with dominator-based interval reasoning over len(), type-assertion / construction-site agreement from the extracted operator and lexer tables, nil-guard recognition",
  "DESIGN.md §3 C11")
 
 claim("C01",
- "Deliberately narrow: decides only the plumbing clauses that the statement names, from the shape of the code — `|` composes (pipeOperator runs the right side on the left side's results in a context derived from its own and returns the right side's results); `,` concatenates (both sides evaluated in the operator's context, left results appended front to back before right results); binary operators pair left-major (doCrossFunc's outer loop walks the left results, resultsForRHS's inner loop the right results, both front to back, the calculation is called with (left, right), results appended at the back); every operation type the lexer can emit or token post-processing inserts has a handler in the operator table; no result list is built or walked back to front outside the two update operators that do so deliberately; the Context returned by one evaluation is never the context of another (scoping); an operator appends to / removes from only node lists it created or was handed as an out-parameter, never the list inside the context it was given or inside an evaluation result (`.` and `$x` hand back the caller's own list); only path traversal and string `==` call the glob key matcher. What any operator COMPUTES and WHEN an error is due quantify over runtime values and are NOT decided.",
+ "Deliberately narrow: decides only the plumbing clauses that the statement names, from the shape of the code — `|` composes (pipeOperator runs the right side on the left side's results in a context derived from its own and returns the right side's results); `,` concatenates (both sides evaluated in the operator's context, left results appended front to back before right results); binary operators pair left-major (doCrossFunc's outer loop walks the left results, resultsForRHS's inner loop the right results, both front to back, the calculation is called with (left, right), results appended at the back); every operation type the lexer can emit or token post-processing inserts has a handler in the operator table; no result list is built or walked back to front outside the two update operators that do so deliberately; the Context returned by one evaluation is never the context of another (scoping); an operator appends to / removes from only node lists it created or was handed as an out-parameter, never the list inside the context it was given or inside an evaluation result (`.` and `$x` hand back the caller's own list); only path traversal and string `==` call the glob key matcher; neither copy loop of `,` skips an element because of what it is; variables are bound on a derived context, never on the one received or returned by an evaluation (found and fixed: reduce overwrote an outer variable). What any operator COMPUTES and WHEN an error is due quantify over runtime values and are NOT decided.",
  TB + " The two reverse-walking update operators and the two context-threading operators (reduce, delpaths) are explicit one-line-reason tables.",
  "static analysis: SSA shape rules on the three plumbing functions (argument provenance, loop/phi recognition over container/list, dominance order of the appends), operator-table / lexer-table cross-check, module-wide call census on list direction, list-ownership provenance rule for every list-mutating call, who-may-call table for the glob matcher, evaluation-site census",
  "DESIGN.md §3 C01")
